@@ -164,7 +164,8 @@ def mode_fit_loop(p):
     def one(seed):
         rs = np.random.RandomState(seed)
         K = rs.randint(2, 9)
-        L = list(np.cumsum(rs.uniform(0.0, 1.0, size=12))[::-1] * rs.choice([1e-3, 1.0]) + 1.0)
+        off = float(rs.choice([1.0, 1e-4, 1e3]))
+        L = list(off * (1 + np.cumsum(rs.uniform(0.0, 1.0, size=12))[::-1] * rs.choice([1e-3, 1.0, 2e-5])))
         L = [None] + L
         if seed % 2:
             j = rs.randint(1, 10)
@@ -190,6 +191,10 @@ def mode_fit_loop(p):
             if exp is None:
                 return None
             m = km.KMeansMachine(1, init_method=np.zeros((1, 1)), convergence_threshold=thr, max_iter=mx)
+            if seed % 3 == 2:
+                # a machine that has been fitted before (re-training / warm start): it carries the criterion of that run
+                m.average_min_distance = float(L[1] * (1 + rs.choice([0.0, 1e-7, -1e-4])))
+                m.centroids_ = np.zeros((1, 1))
             m.fit(np.zeros((3, 1)))
         finally:
             km.m_step, km.e_step = real_m, real_e
